@@ -85,6 +85,8 @@ class Lst(list):
 
 
 def make(kind, l=L_DEFAULT):
+  if kind == 'nil':
+    return None
   if kind == 'box':
     return Box(3)
   if kind == 'cnt':
@@ -126,6 +128,8 @@ def apply_op(obj, op):
     return obj.bump()
   if op == 'count':
     return obj.count
+  if op == 'get':
+    return -7 if obj is None else obj        # the object itself (a kept None reads as NoneVal)
   if op == 'sortnone':
     r = obj.sort()
     return -7 if r is None else r          # Remote.tla: NoneVal
